@@ -18,6 +18,41 @@ LAYOUT_TABLES = ["static_traps", "fillable", "has_cz", "has_local", "special_gri
 SPEC_FIELDS = ["layout", "float_constants", "int_constants"]
 
 
+_INDEX_READS = {
+    "self._zone_to_id.get(zone, None)", "self._zone_to_id.get(zone)",
+    "self._zone_to_id[zone] if zone in self._zone_to_id else None",
+    "None if zone not in self._zone_to_id else self._zone_to_id[zone]",
+}
+
+
+class _Subst(ast.NodeTransformer):
+    def __init__(self, env):
+        self.env = env
+
+    def visit_Name(self, node):
+        return self.env.get(node.id, node)
+
+
+def _reads_the_index_only(body):
+    """get_zone_id only looks the zone up in the index: local aliases are substituted away, `if zone in index: return index[zone]`
+    followed by `return None` is the conditional expression, and what remains must be one of the known look-ups."""
+    env = {}
+    body = list(body)
+    while body and isinstance(body[0], ast.Assign) and len(body[0].targets) == 1 and isinstance(body[0].targets[0], ast.Name):
+        env[body[0].targets[0].id] = _Subst(env).visit(body[0].value)
+        body = body[1:]
+    text = lambda e: ast.unparse(_Subst(env).visit(e))
+    if len(body) == 1 and isinstance(body[0], ast.Return) and body[0].value is not None:
+        return text(body[0].value) in _INDEX_READS
+    if (len(body) == 2 and isinstance(body[0], ast.If) and not body[0].orelse and len(body[0].body) == 1
+            and isinstance(body[0].body[0], ast.Return) and isinstance(body[1], ast.Return)):
+        then, other = body[0].body[0].value, body[1].value
+        if then is None or (other is not None and ast.unparse(other) != "None"):
+            return False
+        return f"{text(then)} if {text(body[0].test)} else None" in _INDEX_READS
+    return False
+
+
 def _method(cls, name):
     return next((s for s in cls.body if isinstance(s, ast.FunctionDef) and s.name == name), None)
 
@@ -113,8 +148,8 @@ def analyse(path):
                 bad(f"Layout.__post_init__ loop body is not `if grid in index: raise; index[grid] = name` ({extra})")
             info["indexed_tables"] = sorted(tables)
     gz = _method(L, "get_zone_id")
-    if gz is None or [ast.unparse(s) for s in _body(gz)] not in (["return self._zone_to_id.get(zone, None)"], ["return self._zone_to_id.get(zone)"]):
-        bad("Layout.get_zone_id is not `return self._zone_to_id.get(zone, None)`")
+    if gz is None or not _reads_the_index_only(_body(gz)):
+        bad("Layout.get_zone_id is not `return self._zone_to_id.get(zone, None)` (or an equivalent read of the index)")
     # ArchSpec: frozen dataclass without its own __eq__
     decos = [ast.unparse(d).replace(" ", "") for d in A.decorator_list]
     info["spec_fields"] = sorted(s.target.id for s in A.body if isinstance(s, ast.AnnAssign) and isinstance(s.target, ast.Name))
